@@ -105,8 +105,9 @@ def main():
     ap.add_argument('--seed', type=int, default=0)
     ap.add_argument('-j', type=int, default=4)
     a = ap.parse_args()
-    with open(os.path.join(HERE, 'mutants', 'mutants.json')) as f:
-        muts = json.load(f)['mutants']
+    sys.path.insert(0, HERE)
+    from mutants import specs
+    muts = list(specs.MUTANTS)
     if a.seeded:
         sd = os.path.join(HERE, 'seeded')
         for d in sorted(os.listdir(sd)):
